@@ -242,7 +242,8 @@ WORDS = ["Hello ", "x", " - ", "ok, ", "a=b", "<b>", "</b>", "&amp;", "1 < 2", "
          # HTML fragments, so that tags also sit inside attributes and right before '>' or a quote
          "<div class=\"", "\">", "\"/>", "<a href='", "'>", "</div>", "<td>", ">", "\"", "'", "=", "/", "<p id=x>", "<", "!", "-->", "<!--"]
 KEYS = ["name", "title", "n", "m", "y", "k", "item", "list", "obj", "a", "b", "c", "d", "id", "tags", "rows", "flag"]
-STRS = ["Qentem", "a<b", "x&y", "\"q\"", "it's", "&amp;", "&lt;tag&gt;", "plain text", "", "12", "-3", "2.5", "true", "abc", "A", "zz top"]
+STRS = ["Qentem", "a<b", "x&y", "\"q\"", "it's", "&amp;", "&lt;tag&gt;", "plain text", "", "12", "-3", "2.5", "true", "abc", "A", "zz top",
+        "12px", "2021-05-01", "3.5%", "7 ", "1.2.3", "1e"]  # the last six only start with a numeral: not numbers
 
 
 class Gen:
